@@ -1,6 +1,6 @@
 // Ammo-file cases of hC10: from the bytes of an ammo file to the reported samples.
 //
-//	ammo <format uri|uripost|raw|json> <enabled> <depth> <notagonly> <k>[x<g>] <finalNL> <file hex> <tokens...>
+//	ammo <format uri|uripost|raw|json|jsona> <enabled> <depth> <notagonly> <k>[x<g>] <finalNL> <file hex> <tokens...>
 //
 // The file (rendered from the tokens; line tokens in the syntax of a07ammo.Line.Token, json
 // entities in that of a07ammo.EntityToken) is given to the real provider
@@ -46,8 +46,8 @@ func runAmmo(f []string) string {
 		return "harness-error"
 	}
 	dec := format
-	if format == "json" {
-		dec = "jsonline"
+	if format == "json" || format == "jsona" {
+		dec = "jsonline" // jsona: the same lines as the elements of ONE JSON array (readArray / scanAmmos)
 	}
 	prov, err := provhttp.NewProvider(fs, provcfg.Config{Decoder: provcfg.DecoderType(dec), File: "ammo"})
 	if err != nil {
@@ -221,16 +221,32 @@ func genAmmoCase(r *vh.Rand, format string) string {
 	var toks []string
 	var file []byte
 	switch format {
-	case "json":
+	case "json", "jsona":
 		// line by line (jsonline), each line an object whose MEMBERS are chosen one by one: the
 		// optional ones (tag, headers, body) may be absent, null, written twice, or stand beside
 		// members that name no field; tokens J:<member>,... say what is written on the line
 		var sb strings.Builder
 		for i := 0; i < n; i++ {
 			text, tok := genJSONLine(r)
-			sb.WriteString(text)
-			if i < n-1 || fin {
-				sb.WriteByte('\n')
+			if format == "jsona" {
+				// array form: [ obj , obj ... ] over one or several lines
+				if i == 0 {
+					sb.WriteString(r.Pick([]string{"[", "[\n", " [ "}))
+				}
+				sb.WriteString(text)
+				if i < n-1 {
+					sb.WriteString(r.Pick([]string{",", ",\n", " ,\n  "}))
+				} else {
+					sb.WriteString(r.Pick([]string{"]", "\n]"}))
+					if fin {
+						sb.WriteByte('\n')
+					}
+				}
+			} else {
+				sb.WriteString(text)
+				if i < n-1 || fin {
+					sb.WriteByte('\n')
+				}
 			}
 			toks = append(toks, tok)
 		}
@@ -371,7 +387,7 @@ func genAmmo(r *vh.Rand, tier string) []string {
 	var out []string
 	for i := 0; i < n; i++ {
 		// json twice: the members of a line are a dimension of their own
-		for _, format := range []string{"uri", "uripost", "raw", "json", "json"} {
+		for _, format := range []string{"uri", "uripost", "raw", "json", "json", "jsona"} {
 			out = append(out, genAmmoCase(r, format))
 		}
 	}
